@@ -658,8 +658,22 @@ def filter_agree(ctx, rr):
         rr.ob(ctx.where(u, lp), 'get_page_links %s filter: a self-link is reported once, as internal (%d rows)' % ('inbound' if inbound else 'outbound', len(rows)), ok=not bad)
         for r, e, msg in bad:
             rr.fail(ctx.finding('R-FILTER-AGREE', u, e.node if e is not None else lp, 'get_page_links: ' + msg, detail={'row': r.show()[:500]}))
+    offenders = set()
+    # a link target may be unknown to the page map (no webentity, or indexed after the first pass): lookups must tolerate it
+    for qual in ('Traph.get_webentities_links_iter', 'Traph.get_webentities_links_slow_iter'):
+        u = P.unit(qual)
+        maps = {a.targets[0].value.id for a in ast.walk(u.node) if isinstance(a, ast.Assign) and isinstance(a.targets[0], ast.Subscript)
+                and isinstance(a.targets[0].value, ast.Name) and ast.unparse(a.targets[0].slice).endswith('.block')}
+        for x in ast.walk(u.node):
+            if isinstance(x, ast.Subscript) and isinstance(x.ctx, ast.Load) and isinstance(x.value, ast.Name) and x.value.id in maps:
+                rr.ob(ctx.where(u, x), 'page map lookups tolerate unknown targets', ok=False)
+                offenders.add(qual)
+                rr.fail(ctx.finding('R-FILTER-AGREE', u, x, '%s looks a link target up with `%s`: a target without webentity (or indexed after the first pass of an '
+                                    'interleaved query) raises KeyError instead of being skipped' % (qual, ast.unparse(x))))
     # ---- network: fast (pass 2) and slow variants
     for qual in ('Traph.get_webentities_links_iter', 'Traph.get_webentities_links_slow_iter'):
+        if qual in offenders:
+            continue
         u = P.unit(qual)
         loops = _link_loops(P, u)
         if len(loops) != 1:
@@ -714,16 +728,6 @@ def filter_agree(ctx, rr):
               % (qual, len(rows)), ok=not bad, rows=len(rows))
         for r, e, msg in bad:
             rr.fail(ctx.finding('R-FILTER-AGREE', u, e.node if e is not None else lp, '%s: %s' % (qual, msg), detail={'row': r.show()[:500]}))
-    # a link target may be unknown to the page map (no webentity, or indexed after the first pass): lookups must tolerate it
-    for qual in ('Traph.get_webentities_links_iter', 'Traph.get_webentities_links_slow_iter'):
-        u = P.unit(qual)
-        maps = {a.targets[0].value.id for a in ast.walk(u.node) if isinstance(a, ast.Assign) and isinstance(a.targets[0], ast.Subscript)
-                and isinstance(a.targets[0].value, ast.Name) and ast.unparse(a.targets[0].slice).endswith('.block')}
-        for x in ast.walk(u.node):
-            if isinstance(x, ast.Subscript) and isinstance(x.ctx, ast.Load) and isinstance(x.value, ast.Name) and x.value.id in maps:
-                rr.ob(ctx.where(u, x), 'page map lookups tolerate unknown targets', ok=False)
-                rr.fail(ctx.finding('R-FILTER-AGREE', u, x, '%s looks a link target up with `%s`: a target without webentity (or indexed after the first pass of an '
-                                    'interleaved query) raises KeyError instead of being skipped' % (qual, ast.unparse(x))))
     # pages are tallied and sources selected identically: is_page and a source webentity
     for qual in ('Traph.get_webentities_links_iter', 'Traph.get_webentities_links_slow_iter'):
         u = P.unit(qual)
